@@ -358,7 +358,7 @@ func (c *Ctx) ruleExpandedTree() {
 // calls processPaste and none of its reads can be reached from that call; or every call of f sits in that function
 // before the call of processPaste; or f belongs to the scan phase or to the expansion itself.
 func (c *Ctx) readsBeforeExpansion(f *Fn, fld *types.Var) string {
-	pp := c.fn("core", "JApiCore.processPaste")
+	pp := c.pasteRoles().processPaste
 	sp := c.fn("core", "JApiCore.scanProject")
 	if pp == nil {
 		return ""
